@@ -30,22 +30,23 @@ struct Shared {
     r: Vec<dashu_ratio::RBig>,
 }
 
+/// shared operands: the pool (half of the time), the static bank, or heap copies of the statics
 fn uval<'a>(sh: &'a Shared, k: u8) -> &'a UBig {
     let bank = statics::ubank();
-    let k = k as usize % (sh.u.len() + bank.len());
-    if k < sh.u.len() {
-        &sh.u[k]
+    let j = (k >> 1) as usize;
+    if k & 1 == 0 {
+        &sh.u[j % sh.u.len()]
     } else {
-        bank[k - sh.u.len()]
+        bank[j % bank.len()]
     }
 }
 fn ival<'a>(sh: &'a Shared, k: u8) -> &'a IBig {
     let bank = statics::ibank();
-    let k = k as usize % (sh.i.len() + bank.len());
-    if k < sh.i.len() {
-        &sh.i[k]
+    let j = (k >> 1) as usize;
+    if k & 1 == 0 {
+        &sh.i[j % sh.i.len()]
     } else {
-        bank[k - sh.i.len()]
+        bank[j % bank.len()]
     }
 }
 
@@ -55,7 +56,59 @@ fn run_rop(sh: &Shared, op: ROp) -> (u64, Option<UBig>) {
     let (x, y) = (uval(sh, op.a), uval(sh, op.b));
     let (p, q) = (ival(sh, op.a), ival(sh, op.b));
     let mut give = None;
-    match op.kind % 16 {
+    match op.kind % 26 {
+        16 => {
+            d.i64(p.cmp(q) as i64);
+            d.u64((p == q) as u64);
+        }
+        17 => {
+            d.bytes(&p.to_le_bytes());
+            d.bytes(&q.to_be_bytes());
+        }
+        18 => d.bytes(&x.to_be_bytes()),
+        19 => {
+            let r = x | y;
+            dig_ubig(&mut d, &r);
+            let r = p ^ q;
+            dig_ibig(&mut d, &r);
+        }
+        20 => {
+            let r = p >> (op.n as usize % 300);
+            dig_ibig(&mut d, &r);
+            let r = x << (op.n as usize % 70);
+            dig_ubig(&mut d, &r);
+        }
+        21 => {
+            if !y.is_zero() {
+                let (q2, r2) = dashu_base::DivRem::div_rem(x, y);
+                dig_ubig(&mut d, &q2);
+                dig_ubig(&mut d, &r2);
+            }
+        }
+        22 => {
+            let r = dashu_base::SquareRoot::sqrt(x);
+            dig_ubig(&mut d, &r);
+            d.u64(x.count_ones() as u64);
+            d.u64(x.trailing_zeros().unwrap_or(0) as u64);
+        }
+        23 => {
+            d.u64(x.to_f64().value().to_bits());
+            d.u64(p.to_f32().value().to_bits() as u64);
+            d.bytes(format!("{}", p.in_radix(7 + op.n as u32 % 29)).as_bytes());
+        }
+        24 => {
+            // the same static (or pool value) on both sides, and against a heap copy of itself
+            d.i64(x.cmp(x) as i64);
+            let c = y.clone();
+            d.i64(y.cmp(&c) as i64);
+            d.i64(q.cmp(&q.clone()) as i64);
+        }
+        25 => {
+            let mut c = x.clone();
+            c.clone_from(y);
+            dig_ubig(&mut d, &c);
+            give = Some(c);
+        }
         0 => {
             let r = x + y;
             dig_ubig(&mut d, &r);
